@@ -272,9 +272,9 @@ func c17(c *Ctx) {
 		var inactive []cfgx.Edge
 		for _, b := range rs.Blocks {
 			for _, in := range b.Instrs {
-				if bo, ok := in.(*ssa.BinOp); ok && bo.Op == token.EQL {
+				if bo, ok := in.(*ssa.BinOp); ok && isEqOrNeq(bo) {
 					if s, isC := cfgx.ConstString(bo.Y); isC && s == "Inactive" {
-						t, _ := cfgx.CondEdges(bo)
+						t, _ := eqEdges(bo)
 						inactive = append(inactive, t...)
 					}
 				}
@@ -482,8 +482,8 @@ func c17(c *Ctx) {
 			good := false
 			for _, b := range trc.Blocks {
 				for _, in := range b.Instrs {
-					if bo, ok := in.(*ssa.BinOp); ok && bo.Op == token.EQL && cfgx.IsNilConst(bo.Y) {
-						t, _ := cfgx.CondEdges(bo)
+					if bo, ok := in.(*ssa.BinOp); ok && isEqOrNeq(bo) && cfgx.IsNilConst(bo.Y) {
+						t, _ := eqEdges(bo)
 						rets := cfgx.ReturnsReachable(t, nil)
 						if len(rets) == 1 && nonNilError(rets[0]) != "nil" {
 							good = true
